@@ -96,12 +96,15 @@ theorem marked_sett_err {addrs st} (h : Sett addrs st) (hs : st.settles = []) (s
 
 /-! ### `on_connect_done`, failure branch -/
 
-theorem deliverErr_inv {addrs st} (h : Inv addrs st) (s : Nat) (x : Stream) (hx : st.streams[s]? = some x)
-    (hd : x.delivered = false) (hf : x.fut = .err) : Inv addrs (deliverErr st s) := by
-  have hE : deliverErr st s = if (marked st s).done then marked st s else
+theorem deliverErr_eq (st : St) (s : Nat) (x : Stream) (hx : st.streams[s]? = some x) :
+    deliverErr st s = if (marked st s).done then marked st s else
       afterFail (tryConnect afterFail x.it ((marked st s).iters.getD x.it [])
         { marked st s with lastError := some s }) := by
-    simp only [deliverErr, hx]; rfl
+  simp only [deliverErr, hx]; rfl
+
+theorem deliverErr_inv {addrs st} (h : Inv addrs st) (s : Nat) (x : Stream) (hx : st.streams[s]? = some x)
+    (hd : x.delivered = false) (hf : x.fut = .err) : Inv addrs (deliverErr st s) := by
+  have hE := deliverErr_eq st s x hx
   rw [hE]
   have hcore := marked_core h.core s x hx hd (by rw [hf]; decide)
   split
@@ -131,11 +134,14 @@ def won (st : St) (s a : Nat) : St :=
     inSet := (clearTimeouts (marked st s)).inSet.erase s,
     settles := (clearTimeouts (marked st s)).settles ++ [.ok a s] }
 
+theorem deliverOk_eq (st : St) (s : Nat) (x : Stream) (hx : st.streams[s]? = some x) :
+    deliverOk st s = if (clearTimeouts (marked st s)).done then closeStream (clearTimeouts (marked st s)) s
+      else closeStreams (won st s x.addr.idx) := by
+  simp only [deliverOk, hx]; rfl
+
 theorem deliverOk_inv {addrs st} (h : Inv addrs st) (s : Nat) (x : Stream) (hx : st.streams[s]? = some x)
     (hd : x.delivered = false) (hf : x.fut = .ok) : Inv addrs (deliverOk st s) := by
-  have hE : deliverOk st s = if (clearTimeouts (marked st s)).done then closeStream (clearTimeouts (marked st s)) s
-      else closeStreams (won st s x.addr.idx) := by
-    simp only [deliverOk, hx]; rfl
+  have hE := deliverOk_eq st s x hx
   rw [hE]
   have hcore1 := marked_core h.core s x hx hd (by rw [hf]; decide)
   have hcore : Core addrs (clearTimeouts (marked st s)) := by
